@@ -72,12 +72,12 @@ func resetCfg(ids []string, full []query) rt.M {
 // (+ raw dump, + the full grid the first time this content is seen), close.
 func (w *worker) edge(state []byte, o op, v, pre, post, failAt int) (string, []byte) {
 	w.restore(state)
-	e, err := openEnv(w.file, failAt > 0)
+	e, err := openEnv(w.file, failAt != 0)
 	if err != nil {
 		rt.Fatalf("open: %v", err)
 	}
 	if e.fs != nil {
-		e.fs.failAt = failAt
+		e.fs.set(failAt)
 	}
 	res := e.apply(o, v)
 	ev := rt.M{"pre": pre, "post": post, "op": o.Kind, "id": o.ID, "a": o.A, "v": v,
@@ -129,6 +129,8 @@ func (w *worker) node(state []byte, depth int, only int) {
 					break
 				}
 			}
+			w.edge(state, o, depth+1, depth+1, depth+2, -1) // tx.Commit fails
+			w.faults++
 		}
 		_, child := w.edge(state, o, depth+1, depth+1, depth+2, 0)
 		w.edges++
@@ -163,7 +165,7 @@ func Run(r *rt.Run) error {
 			{"deep2", []string{"a", "ab"}, []string{"Put", "Replace", "Delete", "Rebuild"}, 5, 1},
 			{"deepest", []string{"a", "ab"}, []string{"Put", "Delete", "Rebuild"}, 6, 0},
 		}
-		nRandom, randLen = 2000, 60
+		nRandom, randLen = 1000, 60
 	} else {
 		sweeps = []sweep{
 			{"plain3", []string{"a", "ab", "b"}, allKinds, 3, 2},
@@ -296,6 +298,7 @@ func sampleTrace(r *rt.Run, tmp string) {
 	_, st = w.edge(st, op{"Put", "ab", "x"}, 2, 2, 3, 0)
 	w.edge(st, op{"Replace", "a", "x"}, 3, 3, 4, 2)
 	_, st = w.edge(st, op{"Replace", "a", "x"}, 3, 3, 4, 0)
+	w.edge(st, op{"Delete", "ab", ""}, 4, 4, 5, -1)
 	w.edge(st, op{"Delete", "ab", ""}, 4, 4, 5, 0)
 }
 
@@ -321,8 +324,11 @@ func randomHistory(t *rt.Trace, rng *rand.Rand, file string, full []query, n int
 			if o.Kind == "Rebuild" {
 				failAt = 1 + rng.Intn(24)
 			}
+			if rng.Intn(5) == 0 {
+				failAt = -1 // tx.Commit fails
+			}
 		}
-		if failAt > 0 && e.fs == nil {
+		if failAt != 0 && e.fs == nil {
 			// switch to the wrapper for this operation: reopen wrapped
 			e.close()
 			if e, err = openEnv(file, true); err != nil {
@@ -330,7 +336,7 @@ func randomHistory(t *rt.Trace, rng *rand.Rand, file string, full []query, n int
 			}
 		}
 		if e.fs != nil {
-			e.fs.failAt = failAt
+			e.fs.set(failAt)
 		}
 		res := e.apply(o, k)
 		ev := rt.M{"pre": 1, "post": 1, "op": o.Kind, "id": o.ID, "a": o.A, "v": k,
